@@ -76,11 +76,16 @@ def make_case(seed, index, tier):
             if roll < 0.45:
                 item_no += 1
                 item = item_no if kind != 'prioritystore' else [rng.randint(0, 3), item_no]
+                if kind != 'prioritystore' and item_no > 1 and rng.random() < 0.25:
+                    # a twin: equal to (==) an earlier item, yet a different object that
+                    # filters can tell apart - the store must hand out *the* matching item
+                    item = float(rng.randint(1, item_no - 1))
                 op.update(op='put', item=item)
             elif roll < 0.86:
                 op.update(op='get')
                 if kind == 'filterstore':
-                    op['filter'] = rng.choice(['any', 'any', 'even', 'odd', 'big', 'none'])
+                    op['filter'] = rng.choice(['any', 'any', 'even', 'odd', 'big', 'none',
+                                               'isint', 'isfloat'])
             elif requests:
                 op.update(op=rng.choice(['cancel', 'interrupt']), target=rng.choice(requests))
             else:
@@ -140,7 +145,13 @@ def make_case(seed, index, tier):
 FILTERS = {
     'any': lambda item: True, 'even': lambda item: item % 2 == 0,
     'odd': lambda item: item % 2 == 1, 'big': lambda item: item > 6, 'none': lambda item: False,
+    'isint': lambda item: type(item) is int, 'isfloat': lambda item: type(item) is float,
 }
+
+
+def ident(item):
+    """items are compared by identity, not equality: 2 and 2.0 are different items"""
+    return item if item is None or isinstance(item, (tuple, list)) else repr(item)
 
 
 def make_model(case):
@@ -320,7 +331,7 @@ def run_case(case):
                 value = request.value
                 if isinstance(value, PriorityItem):
                     value = (value.priority, value.item)
-                snap['granted'][number] = value
+                snap['granted'][number] = ident(value)
         snap['put_queue'] = [index_of.get(id(req)) for req in res.put_queue]
         snap['get_queue'] = [index_of.get(id(req)) for req in res.get_queue]
         if kind == 'container':
@@ -329,7 +340,7 @@ def run_case(case):
         elif kind in ('store', 'prioritystore', 'filterstore'):
             items = res.items
             snap['items'] = [(item.priority, item.item) if isinstance(item, PriorityItem)
-                             else item for item in items]
+                             else ident(item) for item in items]
         else:
             snap['users'] = sorted(index_of.get(id(req)) for req in res.users)
             holder['bounds'].append(len(res.users))
@@ -365,6 +376,10 @@ def run_case(case):
         for key in want:
             mine = got.get(key)
             theirs = want[key]
+            if key == 'granted' and kind in ('store', 'filterstore'):
+                theirs = {op: ident(v) for op, v in theirs.items()}
+            elif key == 'items' and kind in ('store', 'filterstore'):
+                theirs = [ident(v) for v in theirs]
             if key == 'granted':
                 if kind == 'prioritystore':
                     theirs = {op: (tuple(v) if isinstance(v, (list, tuple)) else v)
